@@ -65,7 +65,11 @@ type c11Case struct {
 
 const (
 	c11MethodContract = "counter"
-	c11MethodName     = "inc"
+	// c11MethodContract2: a second contract whose contract->account mapping (owner acc) is written AFTER the setup
+	// block by a pending transaction (step deploy2): until a block confirms it, the contract has no owner on the
+	// confirmed chain and nobody can change its method rules (change kind "method2")
+	c11MethodContract2 = "counter2"
+	c11MethodName      = "inc"
 )
 
 var c11Accounts = map[string]string{
@@ -932,7 +936,8 @@ type c11Auth struct {
 // c11PStep is one step of the pipeline machine.
 //
 //	setup : contract->account mapping, accounts acc and X2 created through $acl.NewAccount, one block
-//	change: SetAccountAcl(Target) / SetMethodAcl(counter.inc, owned by acc) with rule Rule, signed by Auth
+//	change: SetAccountAcl(Target) / SetMethodAcl(counter.inc, owned by acc; kind method2: counter2.inc) with rule Rule, signed by Auth
+//	deploy2: pending transaction writing the mapping counter2 -> acc, signed by Auth
 //	spend : a transfer out of account Target's own funds (back to itself), signed by Auth
 //	mine  : the node's own block; walk: State.Walk to block Target index; sync: walk to the ledger tip
 type c11PStep struct {
@@ -1179,6 +1184,32 @@ func (p *c11Pipe) apply(st c11PStep) error {
 		return p.checkNode()
 	case "change", "spend":
 		return p.change(st)
+	case "deploy2":
+		// a pending transaction writes counter2 -> acc (the write needs acc's confirmed rule: Auth); not judged
+		s := nm.PoolState()
+		spec, err := p.c11Spec(s, "", "", nil, []hx.Ins{{Op: "put", B: aclu.GetContract2AccountBucket(), K: c11MethodContract2, V: c11Real("acc")}})
+		if err != nil {
+			return fmt.Errorf("harness: %v", err)
+		}
+		tx, err := c11BuildTx(nm, spec, s, st.Auth)
+		if err != nil {
+			return fmt.Errorf("harness: %v", err)
+		}
+		if merr := s.Check(tx, m.Blocks[m.Tip].Height); merr != nil {
+			return fmt.Errorf("harness: generated transaction is not current on the model: %v", merr)
+		}
+		sub := hx.CloneTx(tx)
+		if ok, verr := nm.N.State.VerifyTx(sub); !ok || verr != nil {
+			p.stat["deploy2-refused"]++
+			return p.checkNode()
+		}
+		if derr := nm.N.State.DoTx(sub); derr != nil {
+			return fmt.Errorf("DoTx refuses (%v) the verified mapping transaction", derr)
+		}
+		nm.Pool = append(nm.Pool, tx)
+		c11NoteKeys(nm, tx)
+		p.stat["deploy2-pending"]++
+		return p.checkNode()
 	}
 	return fmt.Errorf("bad step: op %q", st.Op)
 }
@@ -1205,6 +1236,8 @@ type c11ChangeView struct {
 	want        bool // statement: the change is authorised
 	wantPending bool // what the pending (unconfirmed) rules would say
 	hasPending  bool // the owner's (or a nested member's) rule has an unconfirmed change
+	unowned     bool // kind method2: the contract->account mapping is not on the confirmed chain
+	pendingMap  bool // kind method2: ... but a pending transaction writes it
 }
 
 func (p *c11Pipe) view(st c11PStep) (*c11ChangeView, error) {
@@ -1213,6 +1246,15 @@ func (p *c11Pipe) view(st c11PStep) (*c11ChangeView, error) {
 		// the owner of the funds is the account itself
 	} else if st.Kind == "method" {
 		v.owner = "acc" // counter is owned by acc (setup)
+	} else if st.Kind == "method2" {
+		v.owner = "acc" // counter2 is owned by acc once step deploy2 is confirmed
+		mk := hx.RawKey(aclu.GetContract2AccountBucket(), c11MethodContract2)
+		if kv := p.nm.States[p.nm.Ptr].KV[mk]; kv == nil || kv.Deleted() {
+			v.unowned = true
+			if kv := p.nm.PoolState().KV[mk]; kv != nil && !kv.Deleted() {
+				v.pendingMap = true
+			}
+		}
 	} else if st.Kind != "account" {
 		return nil, fmt.Errorf("bad step: change kind %q", st.Kind)
 	}
@@ -1253,6 +1295,11 @@ func (p *c11Pipe) view(st c11PStep) (*c11ChangeView, error) {
 	}
 	v.want = c11Ref(v.confirmed, v.owner, v.verified)
 	v.wantPending = c11Ref(v.pending, v.owner, v.verified)
+	if v.unowned {
+		// no owning account on the confirmed chain: no rule in force there can be satisfied
+		v.want = false
+		v.wantPending = v.wantPending && v.pendingMap
+	}
 	v.hasPending = c11RuleText(v.confirmed, "") != c11RuleText(v.pending, "")
 	return v, nil
 }
@@ -1289,6 +1336,8 @@ func (p *c11Pipe) change(st c11PStep) error {
 		p.byJSON[js] = *st.Rule
 		if st.Kind == "account" {
 			spec, err = p.c11Spec(s, "$acl", "SetAccountAcl", map[string]string{"account_name": c11Real(st.Target), "acl": js}, nil)
+		} else if st.Kind == "method2" {
+			spec, err = p.c11Spec(s, "$acl", "SetMethodAcl", map[string]string{"contract_name": c11MethodContract2, "method_name": c11MethodName, "acl": js}, nil)
 		} else {
 			spec, err = p.c11Spec(s, "$acl", "SetMethodAcl", map[string]string{"contract_name": c11MethodContract, "method_name": c11MethodName, "acl": js}, nil)
 		}
@@ -1312,6 +1361,9 @@ func (p *c11Pipe) change(st c11PStep) error {
 	}
 	what += fmt.Sprintf(" signed by %s; rule of owner %s on the confirmed chain %s (pending state: %s)",
 		c11AuthText(st.Auth), v.owner, c11RuleText(v.confirmed, ""), c11RuleText(v.pending, ""))
+	if accepted && v.unowned {
+		return fmt.Errorf("VerifyTx ACCEPTS a %s although contract %s has no owning account on the confirmed chain (mapping written by a pending transaction: %v)", what, c11MethodContract2, v.pendingMap)
+	}
 	if accepted && !v.want {
 		return fmt.Errorf("VerifyTx ACCEPTS a %s although the verified signers %v do not satisfy the owner's confirmed rule", what, v.verified)
 	}
@@ -1336,6 +1388,12 @@ func (p *c11Pipe) change(st c11PStep) error {
 		p.stat["forged-entry"]++
 	}
 	nt := false
+	if v.unowned && v.pendingMap {
+		p.stat["method-rule-change-while-owner-mapping-pending"]++
+		if v.wantPending {
+			nt = true
+		}
+	}
 	if v.hasPending {
 		p.stat["guarded-tx-while-rule-change-pending"]++
 		if v.want != v.wantPending {
@@ -1481,6 +1539,8 @@ func c11GenChange(rt *rapid.T, p *c11Pipe) (c11PStep, error) {
 		st.Kind = "method"
 	case 4, 5:
 		st = c11PStep{Op: "spend", Target: rapid.SampledFrom([]string{"acc", "acc", "X2"}).Draw(rt, "spender")}
+	case 6, 7:
+		st.Kind = "method2"
 	}
 	if st.Op == "change" {
 		r := c11DrawRule(rt, map[bool]string{true: "acc", false: "X2"}[st.Target == "acc" && st.Kind == "account"], "new")
@@ -1581,6 +1641,26 @@ func c11RunPipelineCase(cs *hx.Case, fs *hx.FindingSet) {
 			if err != nil {
 				rt.Fatalf("generator: %v", err)
 			}
+			if st.Kind == "method2" {
+				if kv := p.nm.PoolState().KV[hx.RawKey(aclu.GetContract2AccountBucket(), c11MethodContract2)]; kv == nil || kv.Deleted() {
+					// first the (pending) mapping counter2 -> acc, signed so that acc's confirmed rule is satisfied
+					cr, cerr := p.confirmedRules()
+					if cerr != nil {
+						rt.Fatalf("generator: %v", cerr)
+					}
+					useful, _ := c11Candidates("acc")
+					sets := c11SatisfyingSets(cr, "acc", useful)
+					if len(sets) == 0 {
+						continue
+					}
+					d := c11PStep{Op: "deploy2"}
+					for _, u := range sets[rapid.IntRange(0, len(sets)-1).Draw(rt, "deployers")] {
+						d.Auth = append(d.Auth, c11Auth{URI: u, Key: c11LastComp(u)})
+					}
+					exec(d)
+					continue
+				}
+			}
 			if c11Exclude[c11InnerAK] {
 				v, _ := p.view(st)
 				if v != nil && (c11InnerAKShape(v.confirmed, v.owner, v.verified)) {
@@ -1653,7 +1733,7 @@ func init() {
 
 func TestC11(t *testing.T) {
 	c := hx.NewCollector("C11", "exploration",
-		"(1) acl-evaluator: the real IdentifyAccount / CheckContractMethodPerm over a stub ACL manager, exhaustively over rules x ordered signer lists, compared with a reference evaluator written from the statement (signer = last URI component; counts only through a path that starts at the evaluated account and walks real membership edges; each member once); on the code alone: same verdict for every list with the same set of URIs (permutation, duplication), no acceptance lost by adding a URI (non-negative weights). Non-trivial = signer list with a duplicate, a foreign-account path or a nested path. (2) acl-pipeline: real node, accounts created through $acl.NewAccount, rule changes SetAccountAcl / SetMethodAcl (and transfers out of an account's own funds) signed by generated signer sets through State.VerifyTx / DoTx, interleaved with own blocks, walks back to an earlier block and forward again, and pending rule changes; accepted iff the reference evaluator is satisfied under the owning account's rule as of the confirmed chain (rules taken from the reference model's state at the node's confirmed block). Non-trivial = guarded transaction whose signers satisfy exactly one of {confirmed rule, pending rule}, or with a foreign-account / key-in-the-middle URI; distinct = hash of the trace",
+		"(1) acl-evaluator: the real IdentifyAccount / CheckContractMethodPerm over a stub ACL manager, exhaustively over rules x ordered signer lists, compared with a reference evaluator written from the statement (signer = last URI component; counts only through a path that starts at the evaluated account and walks real membership edges; each member once); on the code alone: same verdict for every list with the same set of URIs (permutation, duplication), no acceptance lost by adding a URI (non-negative weights). Non-trivial = signer list with a duplicate, a foreign-account path or a nested path. (2) acl-pipeline: real node, accounts created through $acl.NewAccount, rule changes SetAccountAcl / SetMethodAcl (and transfers out of an account's own funds) signed by generated signer sets through State.VerifyTx / DoTx, interleaved with own blocks, walks back to an earlier block and forward again, pending rule changes, and method-rule changes of a second contract whose contract->account mapping is only written by a pending transaction (no owner on the confirmed chain: must be refused until a block confirms the mapping); accepted iff the reference evaluator is satisfied under the owning account's rule as of the confirmed chain (rules taken from the reference model's state at the node's confirmed block). Non-trivial = guarded transaction whose signers satisfy exactly one of {confirmed rule, pending rule}, or with a foreign-account / key-in-the-middle URI; distinct = hash of the trace",
 		"every signer URI ends in an access key whose signature was verified (verifySignatures checks exactly the last component)",
 		"weights are multiples of 0.1 whose float64 sums compare like the exact numbers in every summation order (rules where rounding decides are skipped and counted)",
 		"a listed key set is non-empty (the code documents that an empty set never validates)",
